@@ -24,6 +24,9 @@ pub struct Case {
     /// number of Pending results before each piece (async)
     pub pend: u8,
     pub ns: bool,
+    /// bit k set: after the k-th start event (mod 8) call read_to_end* (odd k: read_text on the slice)
+    #[serde(default)]
+    pub skip: u8,
 }
 
 pub fn info() -> PropInfo {
@@ -31,7 +34,7 @@ pub fn info() -> PropInfo {
         id: "C03",
         run,
         replay,
-        rule: "cases = (input over all 256 byte values, configuration, source kind and chunking, Reader or NsReader). Invariants over the call history: every call returns (catch_unwind), Eof within 2*len+4 calls, after Eof and after any syntax error the next calls return Eof, positions never decrease and never exceed the input length, error position <= position; every payload accessor is exercised on every returned event. Enumerated: all byte strings to length 2 (3 in the thorough tier), all markup strings to length 5; generated: markup-biased byte vectors, soups with arbitrary bytes injected, mutated corpus. Non-trivial = the run produced an error or at least two non-text events.",
+        rule: "cases = (input over all 256 byte values, configuration, source kind and chunking, Reader or NsReader). Invariants over the call history: every call returns (catch_unwind), Eof within 2*len+4 calls, after Eof and after any syntax error the next calls return Eof, positions never decrease and never exceed the input length, error position <= position; every payload accessor is exercised on every returned event; after some start events read_to_end* / read_text is called (a read call like any other: same invariants). Enumerated: all byte strings to length 2 (3 in the thorough tier), all markup strings to length 5; generated: markup-biased byte vectors, soups with arbitrary bytes injected, mutated corpus. Non-trivial = the run produced an error or at least two non-text events.",
         assumptions: &["what the reader does after an I/O or a recoverable ill-formedness/namespace error is not asserted", "bounded time is decided by the call-count bound, not by a clock"],
         level: "exploration",
         variants: &["full", "min"],
@@ -194,7 +197,11 @@ fn cuts_for(c: &Case) -> Vec<usize> {
 }
 
 macro_rules! drive {
-    ($r:ident, $h:ident, $len:expr, $read:expr, $ns:expr) => {{
+    ($r:ident, $h:ident, $len:expr, $read:expr, $ns:expr) => {
+        drive!($r, $h, $len, $read, $ns, 0u8, _n, Ok::<(), Error>(()))
+    };
+    ($r:ident, $h:ident, $len:expr, $read:expr, $ns:expr, $skipmask:expr, $name:ident, $skip:expr) => {{
+        let mut starts_seen = 0u32;
         loop {
             let pos_probe;
             let epos_probe;
@@ -213,6 +220,24 @@ macro_rules! drive {
                 if $h.observe(&res_owned, pos, epos, $len) {
                     break;
                 }
+                if let Ok(Event::Start(s)) = &res_owned {
+                    starts_seen += 1;
+                    if ($skipmask >> (starts_seen % 8)) & 1 == 1 {
+                        let name_owned = s.name().as_ref().to_vec();
+                        let $name = quick_xml::name::QName(&name_owned);
+                        let r2: Result<(), Error> = $skip;
+                        // a skip call is a read call too: same invariants; a syntax error or a
+                        // missing end tag means the input was read to its end
+                        let as_event: Result<Event<'static>, Error> = match r2 {
+                            Ok(()) => Ok(Event::Text(quick_xml::events::BytesText::new("skipped"))),
+                            Err(Error::IllFormed(quick_xml::errors::IllFormedError::MissingEndTag(_))) => Err(Error::Syntax(quick_xml::errors::SyntaxError::UnclosedTag)),
+                            Err(e) => Err(e),
+                        };
+                        if $h.observe(&as_event, $r.buffer_position(), $r.error_position(), $len) {
+                            break;
+                        }
+                    }
+                }
             }
         }
     }};
@@ -226,7 +251,7 @@ pub fn check(c: &Case) -> Verdict {
         (false, 0) => {
             let mut r = Reader::from_reader(&data[..]);
             apply_cfg(r.config_mut(), c.cfg);
-            drive!(r, h, len, r.read_event(), |_e: &Event| {});
+            drive!(r, h, len, r.read_event(), |_e: &Event| {}, c.skip, n, if n.as_ref().len() % 2 == 1 { r.read_text(n).map(|_| ()) } else { r.read_to_end(n).map(|_| ()) });
         }
         (false, 1) => {
             let mut r = Reader::from_reader(ChunkedBufRead::new(data, cuts_for(c)));
@@ -240,7 +265,13 @@ pub fn check(c: &Case) -> Verdict {
                     buf.clear();
                     r.read_event_into(&mut buf)
                 },
-                |_e: &Event| {}
+                |_e: &Event| {},
+                c.skip,
+                n,
+                {
+                    let mut b2 = Vec::new();
+                    r.read_to_end_into(n, &mut b2).map(|_| ())
+                }
             );
         }
         (false, _) => {
@@ -255,7 +286,13 @@ pub fn check(c: &Case) -> Verdict {
                     buf.clear();
                     block_on(r.read_event_into_async(&mut buf))
                 },
-                |_e: &Event| {}
+                |_e: &Event| {},
+                c.skip,
+                n,
+                {
+                    let mut b2 = Vec::new();
+                    block_on(r.read_to_end_into_async(n, &mut b2)).map(|_| ())
+                }
             );
         }
         (true, 0) => {
@@ -363,7 +400,7 @@ fn biased_bytes(max: usize) -> impl Strategy<Value = Vec<u8>> {
 }
 
 fn case_strategy(input: impl Strategy<Value = Vec<u8>>) -> impl Strategy<Value = Case> {
-    (input, 0u8..128, 0u8..3, 0u8..6, 0u8..3, any::<bool>()).prop_map(|(input, cfg, source, piece, pend, ns)| Case { input: B(input), cfg, source, piece, pend, ns })
+    (input, 0u8..128, 0u8..3, 0u8..6, 0u8..3, any::<bool>(), prop_oneof![Just(0u8), any::<u8>()]).prop_map(|(input, cfg, source, piece, pend, ns, skip)| Case { input: B(input), cfg, source, piece, pend, ns, skip })
 }
 
 fn run(ctx: &Ctx) {
@@ -384,7 +421,7 @@ fn run(ctx: &Ctx) {
             }
             let mut r = SplitMix64::derive(seed, "c03-exh", i);
             let v = if n == 3 && idx >= gen::exh_count(256, 2) { r.below(6) } else { i % per };
-            Some(Case { input: B(gen::exh_bytes(&all, idx)), cfg: (r.next() & 127) as u8, source: (v % 3) as u8, piece: 1 + r.below(2) as u8, pend: r.below(2) as u8, ns: v >= 3 })
+            Some(Case { input: B(gen::exh_bytes(&all, idx)), cfg: (r.next() & 127) as u8, source: (v % 3) as u8, piece: 1 + r.below(2) as u8, pend: r.below(2) as u8, ns: v >= 3, skip: 0 })
         },
         check,
     );
@@ -395,7 +432,7 @@ fn run(ctx: &Ctx) {
         mcount,
         |i| {
             let mut r = SplitMix64::derive(seed, "c03-exh-markup", i);
-            Some(Case { input: B(gen::exh_bytes(gen::SIGMA1, i)), cfg: (r.next() & 127) as u8, source: r.below(3) as u8, piece: r.below(4) as u8, pend: r.below(2) as u8, ns: r.chance(1, 2) })
+            Some(Case { input: B(gen::exh_bytes(gen::SIGMA1, i)), cfg: (r.next() & 127) as u8, source: r.below(3) as u8, piece: r.below(4) as u8, pend: r.below(2) as u8, ns: r.chance(1, 2), skip: if r.chance(1, 3) { r.next() as u8 } else { 0 } })
         },
         check,
     );
@@ -411,7 +448,7 @@ fn run(ctx: &Ctx) {
     let corpus = gen::corpus();
     ctx.run_indexed("corpus", corpus.len() as u64 * 12, |i| {
         let k = i % 12;
-        Some(Case { input: B(corpus[(i / 12) as usize].1.clone()), cfg: [0u8, 127, 104, 23][(k % 4) as usize], source: (k % 3) as u8, piece: [0, 1, 7][(k / 4) as usize], pend: (k % 2) as u8, ns: k >= 6 })
+        Some(Case { input: B(corpus[(i / 12) as usize].1.clone()), cfg: [0u8, 127, 104, 23][(k % 4) as usize], source: (k % 3) as u8, piece: [0, 1, 7][(k / 4) as usize], pend: (k % 2) as u8, ns: k >= 6, skip: [0u8, 0x55, 0xFF][(k % 3) as usize] })
     }, check);
     let small_corpus: Vec<&Vec<u8>> = corpus.iter().map(|c| &c.1).filter(|d| d.len() <= 4096).collect();
     let all_ref = &all;
@@ -425,7 +462,7 @@ fn run(ctx: &Ctx) {
             let edits = 1 + r.below(4);
             let alpha: &[u8] = if r.chance(1, 2) { gen::SIGMA1 } else { all_ref };
             let input = gen::mutate(&mut r, &base, alpha, edits);
-            Some(Case { input: B(input), cfg: (r.next() & 127) as u8, source: r.below(3) as u8, piece: r.below(8) as u8, pend: r.below(3) as u8, ns: r.chance(1, 2) })
+            Some(Case { input: B(input), cfg: (r.next() & 127) as u8, source: r.below(3) as u8, piece: r.below(8) as u8, pend: r.below(3) as u8, ns: r.chance(1, 2), skip: if r.chance(1, 3) { r.next() as u8 } else { 0 } })
         },
         check,
     );
